@@ -12,11 +12,11 @@ def short(ob):
     return ob
 
 
-def seeded_table():
+def seeded_table(pattern='C??-m?'):
     rows = ['| change | files | what it needs | deductive stage (Verus) | harness with concrete input | verdict |',
             '|---|---|---|---|---|---|']
     n = {'all': 0, 'det': 0, 'inp': 0, 'verus': 0, 'unread': 0, 'silent': 0}
-    for p in sorted(glob.glob(os.path.join(V, 'seeded', 'C*-m*', 'meta.json'))):
+    for p in sorted(glob.glob(os.path.join(V, 'seeded', pattern, 'meta.json'))):
         m = json.load(open(p))
         c = m['check_against_it']
         vf = c.get('verus_obligations_failed') or []
@@ -56,6 +56,7 @@ def main():
     p1 = open(os.path.join(V, 'docs', 'part1_asbuilt.md')).read()
     p2 = open(os.path.join(V, 'docs', 'part2_design.md')).read()
     p1 = p1.replace('<!--SEEDED-TABLE-->', seeded_table())
+    p1 = p1.replace('<!--SEEDED-TABLE-2-->', seeded_table('C??-r2m?'))
     out = p1.rstrip('\n') + '\n\n# Part II — the design as written before the build\n\n' + p2
     open(os.path.join(V, 'DESIGN.md'), 'w').write(out)
     print('DESIGN.md', len(out.split('\n')), 'lines')
